@@ -249,6 +249,21 @@ func c20Table(seed []byte) []func() *c20Val {
 		v6(func() dhcpv6.Option {
 			return &dhcpv6.OptVendorOpts{EnterpriseNumber: 9, VendorOpts: dhcpv6.Options{&dhcpv6.OptionGeneric{OptionCode: 1}, &dhcpv6.OptionGeneric{OptionCode: 1, OptionData: bs(0, 2)}, &dhcpv6.OptionGeneric{OptionCode: 0, OptionData: []byte{}}}}
 		}),
+		// list elements longer than their length field can announce, followed by ordinary ones (an encoder may skip, cut
+		// or refuse such an element; the list the caller built stays the caller's)
+		v6(func() dhcpv6.Option { return dhcpv6.OptBootFileParam("a", string(bs(0, 65536)), "b", "c") }),
+		v6(func() dhcpv6.Option { return dhcpv6.OptBootFileParam(string(bs(1, 65535)), "b", string(bs(0, 70000)), "c") }),
+		v6(func() dhcpv6.Option { return &dhcpv6.OptUserClass{UserClasses: [][]byte{bs(0, 2), bs(0, 65536), bs(1, 3)}} }),
+		v6(func() dhcpv6.Option {
+			return &dhcpv6.OptVendorClass{EnterpriseNumber: 9, Data: [][]byte{bs(0, 65536), bs(0, 2), bs(1, 3)}}
+		}),
+		v4(func() dhcpv4.Option { return dhcpv4.OptRFC3004UserClass([]string{"a", string(bs(0, 256)), "b", "c"}) }),
+		v4(func() dhcpv4.Option {
+			return dhcpv4.OptVIVC(dhcpv4.VIVCIdentifier{EntID: 1, Data: bs(0, 2)}, dhcpv4.VIVCIdentifier{EntID: 2, Data: bs(0, 256)}, dhcpv4.VIVCIdentifier{EntID: 3, Data: bs(1, 3)})
+		}),
+		v4(func() dhcpv4.Option {
+			return dhcpv4.OptDomainSearch(&rfc1035label.Labels{Labels: []string{"a.example", string(bs(0, 64)) + ".example", "b.example"}})
+		}),
 	}
 	return table
 }
@@ -335,7 +350,7 @@ var c20 = newChk("C20", "read-only",
 
 func genC20() *rapid.Generator[c20Case] {
 	return rapid.Custom(func(t *rapid.T) c20Case {
-		c := c20Case{Kind: rapid.IntRange(0, 4).Draw(t, "kind"), Opt: rapid.IntRange(0, 60).Draw(t, "opt")}
+		c := c20Case{Kind: rapid.IntRange(0, 4).Draw(t, "kind"), Opt: rapid.IntRange(0, 70).Draw(t, "opt")}
 		switch c.Kind {
 		case 0, 1:
 			c.B = gen.V4Wire(6, 300, 0).Draw(t, "v4")
